@@ -29,8 +29,8 @@ import (
 type pbLayer struct {
 	kind    string // tree, env, res
 	label   string
-	defines bool   // holds the name, value = label+"V"
-	block   int    // > 0: holds a non-object at the prefix of that many segments
+	defines bool // holds the name, value = label+"V"
+	block   int  // > 0: holds a non-object at the prefix of that many segments
 	blockV  interface{}
 	blockAs string
 }
